@@ -86,6 +86,10 @@ func installLabelModels(in *Interp) {
 			if err != nil {
 				return nil, err
 			}
+			if len(cur) == 0 {
+				// the zero label: doubling is linear over GF(2)
+				return NilV{}, setLabel(pv, LabelV{})
+			}
 			return NilV{}, setLabel(pv, Lab(tag+"("+cur.Canon()+")"))
 		}
 	}
